@@ -1,4 +1,5 @@
 ENTRY = dict(
+    gen=["parrots"],
     runner="C02", pkg="./cmd/c02", corr=["Corr.C02Corr"], n=dict(quick=40, thorough=1500),
     rule="real UConns (UClient over a dummy net.Conn, BuildHandshakeState only): every predefined fingerprint x Config shapes "
          "(ServerName empty / IPv4 / IPv6 / bracketed IPv6 / trailing dot / 1, 253, 255 characters; NextProtos nil, one 255-byte "
